@@ -86,7 +86,13 @@ func c03Gen(t *rapid.T) c03Scenario {
 		sc.Faults[rapid.SampledFrom(c03FaultKeys).Draw(t, "faultkey")] = rapid.SampledFrom([]string{"T", "P", "U"}).Draw(t, "faultclass")
 	}
 	if sc.Modifier && rapid.Bool().Draw(t, "rewrite") {
-		sc.Faults["mod:m1/rewrite"] = "on" // the modifier rewrites every recipient to an alias in the same domain
+		// the modifier rewrites every recipient: to an alias in the same domain, or to another spelling of the same mailbox
+		sc.Faults["mod:m1/rewrite"] = rapid.SampledFrom([]string{"on", "case"}).Draw(t, "rewrite_kind")
+		// what a rewrite can break shows when a target fails at the body stage of an LMTP transaction
+		if rapid.IntRange(0, 2).Draw(t, "rewrite_lmtp") != 0 {
+			sc.LMTP = true
+			sc.Faults[rapid.SampledFrom([]string{"t1/body", "t2/body", "t2/status", "t3/body", "chk:c1/body"}).Draw(t, "rewrite_fault")] = rapid.SampledFrom([]string{"T", "P"}).Draw(t, "rewrite_faultclass")
+		}
 	}
 	// state-aware command sequence
 	state := "init"
@@ -637,6 +643,9 @@ func c03Run(sc c03Scenario) (vs []ev.V) {
 	for i := range events {
 		if events[i].Op == "rcpt" || events[i].Op == "status" {
 			events[i].Arg = strings.Replace(events[i].Arg, "+alias@", "@", 1)
+			if at := strings.LastIndexByte(events[i].Arg, '@'); at > 0 && sc.Faults["mod:m1/rewrite"] == "case" && sc.Modifier {
+				events[i].Arg = verifx.SwapCase(events[i].Arg[:at]) + events[i].Arg[at:] // every local part of the alphabet is of one case
+			}
 		}
 	}
 	// (a) typestate
